@@ -23,6 +23,7 @@ import (
 	"github.com/mdlayher/ndp"
 	"verif.local/model"
 	"verif.local/vfake"
+	"verif.local/vlib"
 )
 
 var (
@@ -39,6 +40,8 @@ func vBubble(t *testing.T, fn func()) (panicMsg string) {
 			panicMsg = fmt.Sprint(p)
 		}
 	}()
+	vlib.BubbleEnter()
+	defer vlib.BubbleExit()
 	synctest.Test(t, func(*testing.T) { fn() })
 	return ""
 }
